@@ -46,7 +46,7 @@ func layerHist(h *harness.H) {
 		"quiescent point where every node's full channel listing is equal; not reaching one within the watchdog is inconclusive")
 	h.Assume("engine contents are enumerated by probing RetrieveChannel for every (node id, local key) up to the largest " +
 		"key observed plus the number of channels ever attempted, on every node's engine")
-	n := h.N(200, 6000)
+	n := h.N(200, 4000)
 	workers := runtime.GOMAXPROCS(0)
 	if workers > 12 {
 		workers = 12
